@@ -282,6 +282,9 @@ class EvoWorklist(BaseWorklist):
             len(set(lengths)) == 1
         ), f"Number of source/destination/volumes must be equal. They were {lengths}"
 
+        if not np.all(volumes >= 0):
+            raise ValueError(f"Volumes must be positive or zero. They were {volumes}")
+
         # automatic partitioning
         partition_by = optimize_partition_by(source, destination, partition_by, label)
 
